@@ -37,7 +37,7 @@ def cases(draw):
     for name in ("dependent-value", "runtime-first", "forwarding", "named-const-args", "varargs"):
         if draw(st.booleans()):
             vals = [draw(st.integers(1, 6)) for _ in range(4)]
-            probes.append({"probe": name, "v": vals, "types": [draw(st.sampled_from(TYPES)), draw(st.sampled_from(TYPES))]})
+            probes.append({"probe": name, "v": vals, "types": [draw(st.sampled_from(TYPES)), draw(st.sampled_from(TYPES))], "wide": draw(st.booleans())})
     return {"steps": steps, "use_n": use_n, "use_k": use_k, "wrap": wrap, "insts": insts, "other_file": draw(st.booleans()), "inline_header": draw(st.booleans()), "probes": probes}
 
 
@@ -99,6 +99,10 @@ def probe_parts(pr, generic, ns):
         # the type of a comptime parameter depends on an earlier comptime parameter
         t1, t2 = pr["types"]
         T1, T2 = INT_BY_NAME[t1], INT_BY_NAME[t2]
+        v = list(v)
+        if pr.get("wide") and T2.bits > T1.bits:
+            # a comptime value for the second instantiation that would not fit the first instantiation's type
+            v[1] = T1.max + 1 + v[1]
         exp = [T1.wrap(5 + v[0]), T2.wrap(7 + v[1]), T1.wrap(9 + v[2])]
         if generic:
             lib = ["rep :: (comptime T: type, comptime v: T, x: T) -> T { x + v }"]
@@ -228,7 +232,13 @@ def build(case, generic):
 DEP_XFILE_KEY = "crash:crates/hir_ty/src/globals.rs:index out of bounds: the len is N but the index is N"
 
 
+WIDE_KEY = "C16:rejected:generic:error: integer literal `N` is too big for `uN`, which can only hold up to N"
+
+
 def check(case, stats, scratch, profile):
+    if not case.get("force") and any(f.get("status") == "open" and f["key"].startswith("C16:rejected:generic:error: integer literal") for f in core.load_findings("C16")):
+        # listed open finding: the comptime value of a later instantiation is checked against an earlier instantiation's type
+        case = dict(case, probes=[dict(pr, wide=False) for pr in case.get("probes", [])])
     if case.get("other_file") and not case.get("force") and any(f.get("status") == "open" and f["key"] == DEP_XFILE_KEY for f in core.load_findings("C16")):
         # listed open finding: a generic with a dependent comptime parameter type defined in another file panics
         case = dict(case, probes=[pr for pr in case.get("probes", []) if pr["probe"] != "dependent-value"])
